@@ -107,6 +107,35 @@ _PAR_LOOP = {
 }
 
 
+# the repaired displacement rule (fixes/C18-zero-state.diff): the same statements routed through the helper
+_DISPLACE_ARGS = "value: float, displacement: float"
+_DISPLACE_BODY = ("if value == 0:\n    return (displacement, -displacement, 2 * displacement)\n"
+                  "return (value * (1 + displacement), value * (1 - displacement), 2 * displacement * value)")
+_DISPLACE_CALL = "upper_value, lower_value, distance = _displace(old, displacement)"
+
+
+def _abs0(table: dict[str, list[str]], with_call: bool) -> dict[str, list[str]]:
+    out = {}
+    for text, sk in table.items():
+        t = (text.replace("old * (1 + displacement)", "upper_value").replace("old * (1 - displacement)", "lower_value")
+             .replace("/ (2 * displacement * old)", "/ distance"))
+        out[t] = sk
+    if with_call:
+        out[_DISPLACE_CALL] = []
+    return out
+
+
+def expected_quot() -> str:
+    """The displacement rule coq/mca/ExpectedFacts.v expects (hand-edited switch, tools/c18_switch.py)."""
+    import re
+
+    try:
+        m = re.search(r"Definition C18_expected_quot : quot_kind := (\w+)\.", (common.area_dir(AREA) / "ExpectedFacts.v").read_text())
+    except OSError:
+        m = None
+    return m.group(1) if m else "QuotUnknown"
+
+
 def _is_doc(s: ast.stmt) -> bool:
     return isinstance(s, ast.Expr) and isinstance(s.value, ast.Constant) and isinstance(s.value.value, str)
 
@@ -162,17 +191,26 @@ def extract_facts() -> dict[str, Any]:
     disp = [_displacement_default(fns[n]) for n in need]
     facts["disp"] = [d for d in disp if d is not None] if all(d is not None for d in disp) else []
     quot = [True]
+    helper = fns.get("_displace")
+    worker_top, var_loop, par_loop = _WORKER_TOP, _VAR_LOOP, _PAR_LOOP
+    if helper is not None:
+        # all three routines must go through the helper, and the helper must be the known one
+        body = "\n".join(ast.unparse(s) for s in helper.body if not _is_doc(s))
+        if ast.unparse(helper.args) != _DISPLACE_ARGS or body != _DISPLACE_BODY or helper.decorator_list:
+            quot[0] = False
+            facts["displace_helper"] = "changed"
+        worker_top, var_loop, par_loop = _abs0(_WORKER_TOP, True), _abs0(_VAR_LOOP, True), _abs0(_PAR_LOOP, True)
     facts["worker_prog"] = _walk(
-        fns["_response_coefficient_worker"].body, _WORKER_TOP, {"y0 is not None": _WORKER_Y0, "normalized": _WORKER_NORM}, quot, True
+        fns["_response_coefficient_worker"].body, worker_top, {"y0 is not None": _WORKER_Y0, "normalized": _WORKER_NORM}, quot, True
     )
-    facts["var_prog"] = _walk(fns["variable_elasticities"].body, _VAR_TOP, {"for var in to_scan": _VAR_LOOP, "normalized": _ELAST_NORM}, quot, True)
-    facts["par_prog"] = _walk(fns["parameter_elasticities"].body, _PAR_TOP, {"for par in to_scan": _PAR_LOOP, "normalized": _ELAST_NORM}, quot, True)
+    facts["var_prog"] = _walk(fns["variable_elasticities"].body, _VAR_TOP, {"for var in to_scan": var_loop, "normalized": _ELAST_NORM}, quot, True)
+    facts["par_prog"] = _walk(fns["parameter_elasticities"].body, _PAR_TOP, {"for par in to_scan": par_loop, "normalized": _ELAST_NORM}, quot, True)
     # response_coefficients must hand the worker to parallelise with the caller's arguments
     rc = "\n".join(ast.unparse(s) for s in fns["response_coefficients"].body if not _is_doc(s))
     if rc != _RESPONSE_SHAPE:
         quot[0] = False
         facts["response_coefficients_shape"] = "changed"
-    facts["quot"] = "QuotCentralRel" if quot[0] else "QuotUnknown"
+    facts["quot"] = ("QuotCentralRelAbs0" if helper is not None else "QuotCentralRel") if quot[0] else "QuotUnknown"
     return facts
 
 
@@ -223,9 +261,9 @@ def gen_net(rng, mode: str) -> dict:
 
     def val():
         if mode == "float":
-            return round(rng.uniform(0.2, 3.0), 3) * rng.choice([1, 1, 1, -1])
+            return 0.0 if rng.random() < 0.03 else round(rng.uniform(0.2, 3.0), 3) * rng.choice([1, 1, 1, -1])
         if mode == "pow2":
-            return rng.choice(_POW2_VALUES)
+            return 0.0 if rng.random() < 0.04 else rng.choice(_POW2_VALUES)
         return 0.0 if rng.random() < 0.06 else rng.choice(_INT_VALUES)
 
     return {"vars": {v: val() for v in vs}, "pars": {p: val() for p in ps}, "rxns": rxns}
@@ -379,9 +417,15 @@ def untouched(before: dict, after: dict) -> str | None:
     return None
 
 
-def elast_oracle(case: dict, res: dict) -> tuple[str | None, dict]:
-    """Judge one elasticity call.  Returns (violation text | None, stats)."""
-    stats = {"cells": 0, "zero_guard_cells": 0, "exact_ok": True}
+def elast_oracle(case: dict, res: dict, rule: str | None = None) -> tuple[str | None, dict]:
+    """Judge one elasticity call.  Returns (violation text | None, stats).
+
+    `rule` is the displacement rule the check EXPECTS of the tree (ExpectedFacts.v): under QuotCentralRel the cells at
+    a zero value are the recorded finding c18-zero-state and are not judged; under QuotCentralRelAbs0 they are judged
+    against the partial derivative (unscaled) / 0 (scaled, flux non-zero).  Cells whose scaled partial derivative
+    value/flux * dv/dx is itself undefined (flux 0) are never judged."""
+    rule = rule or expected_quot()
+    stats = {"cells": 0, "zero_guard_cells": 0, "undefined_cells": 0, "zero_cells_judged": 0, "exact_ok": True}
     net = case["net"]
     bad = untouched(res["before"], res["after"])
     if bad:
@@ -411,12 +455,31 @@ def elast_oracle(case: dict, res: dict) -> tuple[str | None, dict]:
             n = sum(k for a, k in fs if a == col)
             flux = flux_exact(fs, env)
             stats["cells"] += 1
-            if old == 0 or (case["normalized"] and flux == 0):
-                stats["zero_guard_cells"] += 1  # known finding c18-zero-state: NaN where the value / flux is 0
+            if case["normalized"] and flux == 0:
+                stats["undefined_cells"] += 1  # value/flux * dv/dx has no value: nothing to compare with
+                continue
+            if old == 0 and rule != "QuotCentralRelAbs0":
+                stats["zero_guard_cells"] += 1  # known finding c18-zero-state: NaN where the value is 0
                 continue
             rest = flux_exact([(a, k) for a, k in fs if a != col], env)
             deriv = n * rest * old ** (n - 1) if n else Fraction(0)
             exact = Fraction(n) if case["normalized"] else deriv
+            if old == 0:
+                # repaired rule at a zero value: +-d absolute, divisor 2d (C18_zero_state_repaired_*): the scaled
+                # coefficient is 0 (flux non-zero => order 0), the unscaled one the derivative up to |rest| d^2
+                stats["zero_cells_judged"] += 1
+                if got is None:
+                    return (f"{kind} elasticity d v{r}/d {col} is NaN/inf at the zero value of {col} although the "
+                            f"{'scaled coefficient is 0' if case['normalized'] else 'partial derivative is ' + str(float(deriv))} there"), stats
+                tol0 = abs(rest) * d * d + Fraction(1, 10**6) * max(1, abs(exact))
+                if abs(_F(got) - exact) > tol0:
+                    return (f"{kind} elasticity of v{r} w.r.t. {col} at the zero value of {col} is {got}, expected {float(exact)} "
+                            f"(|diff| {float(abs(_F(got) - exact)):.3g} > {float(tol0):.3g}; displacement {float(d)})"), stats
+                up0, lo0 = flux_exact(fs, env | {col: d}), flux_exact(fs, env | {col: -d})
+                parts0 = [up0, lo0, up0 - lo0, 2 * d, (up0 - lo0) / (2 * d)]
+                if not all(_is_b64(p) for p in parts0):
+                    stats["exact_ok"] = False
+                continue
             if got is None:
                 return f"{kind} elasticity d v{r}/d {col} is NaN/inf at a non-zero state (value {float(old)}, flux {float(flux)})", stats
             tol = (Fraction(2) ** n * d * d + Fraction(1, 10**6)) * max(1, abs(exact))
@@ -461,6 +524,31 @@ def cycle_net(rng) -> dict:
             "stoich": {0: {"x0": -1.0, "x1": 1.0}, 1: {"x1": -1.0, "x0": 1.0}}, "cycle": True}
 
 
+def branch_net(rng) -> dict:
+    """-> x0 (v0 = k0), x0 -> (v1 = k1*x0), x0 -> (v2 = k2*x0): steady state x0 = k0/(k1+k2), J1 = k1 x0, J2 = k2 x0
+    (Coq: branch_steady / C18_response_branched; flux response coefficients that are neither 0 nor 1)."""
+    dy = [0.5, 1.0, 2.0, 3.0, 4.0, 1.5]
+    return {"vars": {"x0": rng.choice(dy)}, "pars": {"k0": rng.choice(dy), "k1": rng.choice(dy), "k2": rng.choice(dy)},
+            "rxns": [[("k0", 1)], [("k1", 1), ("x0", 1)], [("k2", 1), ("x0", 1)]],
+            "stoich": {0: {"x0": 1.0}, 1: {"x0": -1.0}, 2: {"x0": -1.0}}, "branch": True}
+
+
+def branch_expected(net: dict, normalized: bool) -> dict:
+    """{(row, parameter): analytic coefficient} for the branch point."""
+    k0, k1, k2 = (float(net["pars"][k]) for k in ("k0", "k1", "k2"))
+    s = k1 + k2
+    x = k0 / s
+    val = {"x0": x, "v0": k0, "v1": k1 * x, "v2": k2 * x}
+    sc = {("x0", "k0"): 1.0, ("x0", "k1"): -k1 / s, ("x0", "k2"): -k2 / s,
+          ("v0", "k0"): 1.0, ("v0", "k1"): 0.0, ("v0", "k2"): 0.0,
+          ("v1", "k0"): 1.0, ("v1", "k1"): k2 / s, ("v1", "k2"): -k2 / s,
+          ("v2", "k0"): 1.0, ("v2", "k1"): -k1 / s, ("v2", "k2"): k1 / s}
+    if normalized:
+        return sc
+    kk = {"k0": k0, "k1": k1, "k2": k2}
+    return {(r, p): c * val[r] / kk[p] for (r, p), c in sc.items()}
+
+
 def cycle_expected(net: dict, y0: dict | None, normalized: bool) -> dict:
     """{(row, parameter): analytic coefficient} for the conserved two-pool cycle."""
     k0, k1 = float(net["pars"]["k0"]), float(net["pars"]["k1"])
@@ -490,7 +578,28 @@ def _tables_close(a, b, rtol=1e-9, atol=1e-12) -> bool:
     return True
 
 
-def resp_oracle(case: dict, seq: dict, par: dict | None) -> tuple[str | None, dict]:
+def zero_chain_oracle(case: dict, seq: dict, stats: dict, rule: str) -> tuple[str | None, dict]:
+    """Linear chain (orders 1) with k0 = 0, unscaled, only k0 scanned: x_i = k0/k_(i+1), so d x_i/d k0 = 1/k_(i+1) and
+    d v_j/d k0 = 1.  Under QuotCentralRel the whole column is NaN (finding c18-zero-state, not judged)."""
+    net = case["net"]
+    _, ctab, ftab, _, _ = seq["out"]
+    for (p, ccells), (_, fcells) in zip(ctab, ftab):
+        if p != "k0" or case["normalized"]:
+            continue
+        exp = [1.0 / float(net["pars"][f"k{i + 1}"]) for i in range(len(ccells))] + [1.0] * len(fcells)
+        for name, got, e in zip([f"x{i}" for i in range(len(ccells))] + [f"v{j}" for j in range(len(fcells))], list(ccells) + list(fcells), exp):
+            stats["cells"] += 1
+            if rule != "QuotCentralRelAbs0":
+                stats["zero_guard_cells"] = stats.get("zero_guard_cells", 0) + 1
+                continue
+            if got is None:
+                return f"response coefficient of {name} w.r.t. k0 is NaN at k0 = 0 although the sensitivity is {e}", stats
+            if abs(got - e) > 5e-2 * max(1.0, abs(e)):
+                return f"response coefficient of {name} w.r.t. k0 at k0 = 0 is {got}, analytic steady-state sensitivity is {e}", stats
+    return None, stats
+
+
+def resp_oracle(case: dict, seq: dict, par: dict | None, rule: str | None = None) -> tuple[str | None, dict]:
     stats = {"cells": 0, "nan_cells": 0}
     net = case["net"]
     for mode, res in (("sequential", seq), ("parallel", par)):
@@ -512,10 +621,10 @@ def resp_oracle(case: dict, seq: dict, par: dict | None) -> tuple[str | None, di
             return f"response_coefficients (parallel) raised {par['out'][0]} although the sequential run succeeds", stats
         if not (_tables_close(seq["out"][1], par["out"][1]) and _tables_close(seq["out"][2], par["out"][2])):
             return "response_coefficients: sequential and parallel execution return different coefficients", stats
-    if net.get("cycle"):
-        exp = cycle_expected(net, case["y0"], case["normalized"])
+    if net.get("cycle") or net.get("branch"):
+        exp = cycle_expected(net, case["y0"], case["normalized"]) if net.get("cycle") else branch_expected(net, case["normalized"])
         _, ctab, ftab, cidx, fidx = seq["out"]
-        if [c for c, _ in ctab] != list(dict.fromkeys(scan)) or cidx != ["x0", "x1"] or fidx != ["v0", "v1"]:
+        if [c for c, _ in ctab] != list(dict.fromkeys(scan)) or cidx != list(net["vars"]) or fidx != [f"v{i}" for i in range(len(net["rxns"]))]:
             return f"result axes wrong: columns {[c for c, _ in ctab]} rows {cidx} / {fidx}", stats
         for tab, rows in ((ctab, cidx), (ftab, fidx)):
             for p, cells_ in tab:
@@ -533,6 +642,8 @@ def resp_oracle(case: dict, seq: dict, par: dict | None) -> tuple[str | None, di
     # closed form for the chain
     k = {p: _F(v) for p, v in net["pars"].items()}
     nv = len(orders)
+    if k["k0"] == 0:
+        return zero_chain_oracle(case, seq, stats, rule or expected_quot())
     xss = [float(k["k0"] / k[f"k{i + 1}"]) ** (1.0 / orders[i]) for i in range(nv)]
     _, ctab, ftab, cidx, fidx = seq["out"]
     if [c for c, _ in ctab] != list(dict.fromkeys(scan)) or cidx != [f"x{i}" for i in range(nv)] or fidx != [f"v{i}" for i in range(nv + 1)]:
@@ -625,7 +736,7 @@ def corr_file(var_cases: list[str], par_cases: list[str], resp_cases: list[str])
         f"Definition resp_cases : list rcase := {lst(resp_cases)}.\n"
         "Definition var_ok (c : ecase) : bool := match c with (net, st, vs, scan, (d, nrm), (exp, st_after)) =>\n"
         "  state_eqb st st_after &&\n"
-        "  match var_elast (pl_fluxes net) d nrm vs scan st, exp with\n"
+        "  match var_elast gen_mca_facts (pl_fluxes net) d nrm vs scan st, exp with\n"
         "  | Some t, Some e => table_eqb t e | None, None => true | _, _ => false end end.\n"
         "Definition par_ok (c : ecase) : bool := match c with (net, st, vs, scan, (d, nrm), (exp, st_after)) =>\n"
         "  match par_elast gen_mca_facts (pl_fluxes net) d nrm vs scan st, exp with\n"
@@ -677,7 +788,13 @@ def gen_elast_case(rng, exact: bool) -> dict:
 
 
 def gen_resp_case(rng, exact: bool) -> dict:
-    net = cycle_net(rng) if rng.random() < 0.35 else chain_net(rng)
+    r0 = rng.random()
+    net = cycle_net(rng) if r0 < 0.30 else (branch_net(rng) if r0 < 0.50 else chain_net(rng))
+    if r0 >= 0.92 and all(o == 1 for o in net["chain_orders"]):
+        # a scanned parameter whose value is exactly 0 (linear chain, unscaled, k0 only): the whole column is NaN under
+        # the relative rule (finding c18-zero-state), the sensitivities 1/k_i and 1 under the repaired rule
+        net["pars"]["k0"] = 0.0
+        return {"net": net, "to_scan": ["k0"], "y0": None, "normalized": False, "d": rng.choice(_DYADIC_D[:2]) if exact else None}
     to_scan = None
     r = rng.random()
     if r < 0.4:
@@ -737,8 +854,8 @@ def check(run: Run) -> None:
         "random power-law networks (1-3 variables, 1-3 parameters, 1-4 reactions, kinetic orders 0-3, repeated arguments, "
         "negative / fractional / zero values), variable and parameter elasticities, scaled and unscaled, explicit `variables`, "
         "subsets of to_scan, unknown names; dyadic displacement for the exact in-Coq comparison, default 1e-4 and other "
-        "displacements for the analytic oracle; power-law chains for response coefficients (sequential with recorded trace, "
-        "parallel). A case is non-trivial if some scanned quantity has kinetic order >= 1 in some reaction or the call is refused; "
+        "displacements for the analytic oracle; power-law chains, branch points, conserved cycles and chains with a zero-valued "
+        "scanned parameter for response coefficients (sequential with recorded trace, parallel). A case is non-trivial if some scanned quantity has kinetic order >= 1 in some reaction or the call is refused; "
         "distinct by content"
     )
     proofs_ok = run.check_proofs(AREA, PROPS)
@@ -749,6 +866,8 @@ def check(run: Run) -> None:
         "errors (KeyError for unknown names) are modelled as an outcome without the model content at the time of the error",
         "assignment-defined parameters / initial values and the `time` argument are outside the model (harness networks use plain values; time is passed through)",
         "correspondence harness: literal printer, recorder wrapped around mca._steady_state_worker, coqc output parser",
+        "coq/mca/ExpectedFacts.v is a hand-edited switch (expected displacement rule: QuotCentralRel = snapshot with finding c18-zero-state, QuotCentralRelAbs0 = after fixes/C18-zero-state.diff), kept consistent with known_findings.d/C18.json by tools/c18_switch.py; the oracle judges cells at a zero value only under the repaired rule",
+        "response coefficients: proved for the closed-form steady states of chain / branch point / cycle (Moebius dependence on one rate constant; the closed form is THE steady state of the written-out right-hand side); that the solver returns that steady state, and its accuracy (amplified by 1/(2 d)), is validated at 5e-2, not proved",
     ]
 
     rng = common.rng_for(run.seed, "c18")
@@ -769,7 +888,9 @@ def check(run: Run) -> None:
     par_coq: list[tuple[str, dict]] = []
     n_exact = 2400 if thorough else 500
     n_float = 1500 if thorough else 300
-    cells = zero_cells = discarded = 0
+    cells = zero_cells = discarded = undefined = zero_judged = 0
+    rule = expected_quot()
+    run.coverage["expected_displacement_rule"] = rule
     for i in range(n_exact + n_float):
         exact = i < n_exact
         case = gen_elast_case(rng, exact)
@@ -777,9 +898,11 @@ def check(run: Run) -> None:
         bump(f"{case['kind']}/{'exact' if exact else 'float'}/{'scaled' if case['normalized'] else 'unscaled'}")
         bump("outcome/" + res["out"][0])
         run.count_case(("elast", case), nontrivial=elast_nontrivial(case))
-        bad, st = elast_oracle(case, res)
+        bad, st = elast_oracle(case, res, rule)
         cells += st["cells"]
         zero_cells += st["zero_guard_cells"]
+        undefined += st["undefined_cells"]
+        zero_judged += st["zero_cells_judged"]
         if bad and n_viol < 4:
             n_viol += 1
             run.violation(bad, {"kind": "elast", "case": case})
@@ -805,9 +928,9 @@ def check(run: Run) -> None:
         bump(f"resp/{'exact' if exact else 'float'}/{'y0' if case['y0'] else 'no-y0'}/{'par+seq' if par else 'seq'}")
         bump("resp-outcome/" + seq["out"][0])
         run.count_case(("resp", case, par is not None), nontrivial=True)
-        bad, st = resp_oracle(case, seq, par)
+        bad, st = resp_oracle(case, seq, par, rule)
         rcells += st["cells"]
-        rnan += st["nan_cells"]
+        rnan += st["nan_cells"] + st.get("zero_guard_cells", 0)
         if bad and n_viol < 6:
             n_viol += 1
             run.violation(bad, {"kind": "resp", "case": case, "parallel": par is not None})
@@ -823,6 +946,15 @@ def check(run: Run) -> None:
         n_viol += 1
         run.violation(bad, {"kind": "resp", "case": Y0_WITNESS, "parallel": False})
 
+    # the witness of finding c18-zero-state always runs through the oracle: not judged under the relative rule (the
+    # finding is replayed below), a VIOLATION with this replay once the repaired rule is the expected one
+    zres = run_elast(ZERO_STATE_WITNESS)
+    bad, _ = elast_oracle(ZERO_STATE_WITNESS, zres, rule)
+    run.count_case(("zero-state-witness",), nontrivial=True)
+    if bad and n_viol < 8:
+        n_viol += 1
+        run.violation(bad, {"kind": "elast", "case": ZERO_STATE_WITNESS})
+
     # ---- Monte-Carlo wrappers (mc.py): model untouched, rows equal independent runs ----------
     for j in range(6 if thorough else 2):
         bad = mc_check(rng, j)
@@ -833,7 +965,8 @@ def check(run: Run) -> None:
             run.violation(bad[0], bad[1])
 
     run.coverage["input_distribution"] = dist
-    run.coverage["oracle"] = {"elasticity_cells_judged": cells - zero_cells, "cells_in_zero_guard": zero_cells,
+    run.coverage["oracle"] = {"elasticity_cells_judged": cells - zero_cells - undefined, "cells_in_zero_guard": zero_cells,
+                              "cells_scaled_derivative_undefined": undefined, "zero_value_cells_judged": zero_judged,
                               "exact_cases_discarded_not_binary64_exact": discarded,
                               "response_cells_judged": rcells - rnan, "response_cells_nan": rnan}
 
